@@ -75,6 +75,13 @@ def symmetric_R_set(rng, radius=2, periodic=(True, True, True), thin=0.0, lattic
         nrm = np.linalg.norm(allR @ M, axis=1)
     sel = allR[nrm <= radius + 1e-9]
     keep = {(0, 0, 0)}
+    # the nearest neighbours along every periodic direction are always there (otherwise the bands may be flat)
+    for i, p in enumerate(periodic):
+        if p:
+            e = [0, 0, 0]
+            e[i] = 1
+            keep.add(tuple(e))
+            keep.add(tuple(-x for x in e))
     for R in sel:
         t = tuple(int(x) for x in R)
         if t in keep or tuple(-x for x in t) in keep:
